@@ -44,6 +44,8 @@ fn ordinal(k: usize) -> String {
 
 pub struct PatternSource {
     pub data: Arc<Vec<u8>>,
+    /// the stream is `data` repeated this many times (virtual streams of several GiB)
+    pub repeat: u64,
     pub off: usize,
     pub pat: Pattern,
     pub reads: usize,
@@ -53,11 +55,25 @@ pub struct PatternSource {
 }
 impl PatternSource {
     pub fn new(data: Arc<Vec<u8>>, pat: Pattern) -> Self {
-        PatternSource { data, off: 0, pat, reads: 0, disturbed: false, counters: Default::default() }
+        PatternSource { data, repeat: 1, off: 0, pat, reads: 0, disturbed: false, counters: Default::default() }
     }
     /// None = disturb now; Some(k) = deliver k bytes
+    fn total(&self) -> usize {
+        self.data.len() * self.repeat as usize
+    }
+    fn copy_out(&mut self, buf: &mut [u8], k: usize) {
+        let bl = self.data.len();
+        let mut done = 0;
+        while done < k {
+            let at = (self.off + done) % bl;
+            let n = (k - done).min(bl - at);
+            buf[done..done + n].copy_from_slice(&self.data[at..at + n]);
+            done += n;
+        }
+        self.off += k;
+    }
     fn answer(&mut self, want: usize) -> Option<usize> {
-        let rest = self.data.len() - self.off;
+        let rest = self.total() - self.off;
         if rest == 0 || want == 0 {
             return Some(0);
         }
@@ -82,8 +98,7 @@ impl Read for PatternSource {
     fn read(&mut self, buf: &mut [u8]) -> std::io::Result<usize> {
         match self.answer(buf.len()) {
             Some(k) => {
-                buf[..k].copy_from_slice(&self.data[self.off..self.off + k]);
-                self.off += k;
+                self.copy_out(buf, k);
                 Ok(k)
             }
             None => Err(std::io::Error::new(ErrorKind::Interrupted, "scripted interrupt")),
@@ -94,9 +109,7 @@ impl futures::io::AsyncRead for PatternSource {
     fn poll_read(mut self: Pin<&mut Self>, cx: &mut Context<'_>, buf: &mut [u8]) -> Poll<std::io::Result<usize>> {
         match self.answer(buf.len()) {
             Some(k) => {
-                let off = self.off;
-                buf[..k].copy_from_slice(&self.data[off..off + k]);
-                self.off += k;
+                self.copy_out(buf, k);
                 Poll::Ready(Ok(k))
             }
             None => {
@@ -304,6 +317,103 @@ impl futures::task::ArcWake for CountWaker {
     }
 }
 
+/// A virtual stream: `base` (a whole number of messages) repeated `repeat` times.  Every result must
+/// be the message at that position of the base; after total/len(base)*messages results: end of stream.
+pub fn run_huge(is_async: bool, base: &Arc<Vec<u8>>, repeat: u64, storage: bool, pat: Pattern, cap: Cap) -> Result<BulkStats, String> {
+    // expected pieces of one repetition
+    let mut ends = vec![];
+    let mut o = 0usize;
+    while let Next::Piece(e) = cutter(base, o, storage) {
+        ends.push(e);
+        o = e;
+    }
+    assert!(o == base.len(), "base must be a whole number of messages");
+    let expected: Vec<ParsedMessage> = {
+        let mut v = vec![];
+        let mut s = 0usize;
+        for e in &ends {
+            v.push(dlt_message(&base[s..*e], None, storage).expect("base message parses").1);
+            s = *e;
+        }
+        v
+    };
+    let per = ends.len() as u64;
+    let total = per * repeat;
+    let mut src = PatternSource::new(base.clone(), pat);
+    src.repeat = repeat;
+    let counters = src.counters.clone();
+    let mut stats = BulkStats::default();
+    let judge = |idx: u64, got: Result<Result<Option<ParsedMessage>, DltParseError>, String>| -> Result<bool, String> {
+        match got {
+            Err(p) => Err(format!("the reader PANICKED ({}) at result {} of {} (stream offset about {} bytes)", p, idx, total, (idx / per) as u128 * base.len() as u128)),
+            Ok(Ok(None)) if idx == total => Ok(false),
+            Ok(Ok(Some(pm))) if idx < total && same(&pm, &expected[(idx % per) as usize]) => Ok(true),
+            Ok(other) => Err(format!("result {} of {} is {} (expected {})", idx, total, match other { Ok(Some(pm)) => short(&pm), Ok(None) => "end-of-stream".to_string(), Err(e) => class(&e).to_string() }, if idx == total { "end-of-stream".to_string() } else { format!("message {} of the base", idx % per) })),
+        }
+    };
+    if is_async {
+        use dlt_core::stream::{read_message, DltStreamReader};
+        use std::future::Future;
+        let mut reader = match cap {
+            Cap::Default => DltStreamReader::new(src, storage),
+            Cap::Minimal => DltStreamReader::with_capacity(65_551, 65_551, src, storage),
+            Cap::Custom(c, m) => DltStreamReader::with_capacity(c, m, src, storage),
+        };
+        let wakes = Arc::new(CountWaker::default());
+        let waker = futures::task::waker(wakes.clone());
+        let mut cx = Context::from_waker(&waker);
+        let mut idx = 0u64;
+        loop {
+            let got = catch(|| {
+                let mut fut = Box::pin(read_message(&mut reader, None));
+                let mut polls = 0u64;
+                loop {
+                    let before = wakes.0.load(std::sync::atomic::Ordering::Relaxed);
+                    match fut.as_mut().poll(&mut cx) {
+                        Poll::Ready(r) => return Ok(r),
+                        Poll::Pending => {
+                            polls += 1;
+                            if wakes.0.load(std::sync::atomic::Ordering::Relaxed) == before || polls > 1_000_000 {
+                                return Err(());
+                            }
+                        }
+                    }
+                }
+            });
+            let got = match got {
+                Ok(Err(())) => return Err(format!("at result {} the future returned Pending without a wake-up, or never completed", idx)),
+                Ok(Ok(r)) => Ok(r),
+                Err(p) => Err(p),
+            };
+            if !judge(idx, got)? {
+                break;
+            }
+            stats.messages += 1;
+            idx += 1;
+        }
+    } else {
+        use dlt_core::read::{read_message, DltMessageReader};
+        let mut reader = match cap {
+            Cap::Default => DltMessageReader::new(src, storage),
+            Cap::Minimal => DltMessageReader::with_capacity(65_551, 65_551, src, storage),
+            Cap::Custom(c, m) => DltMessageReader::with_capacity(c, m, src, storage),
+        };
+        let mut idx = 0u64;
+        loop {
+            let got = catch(|| read_message(&mut reader, None));
+            if !judge(idx, got)? {
+                break;
+            }
+            stats.messages += 1;
+            idx += 1;
+        }
+    }
+    let c = counters.get();
+    stats.deliveries = c.0;
+    stats.disturbances = c.1;
+    Ok(stats)
+}
+
 pub fn run_reader(is_async: bool, stream: &Arc<Vec<u8>>, storage: bool, pat: Pattern, cap: Cap, filter: Option<&ProcessedDltFilterConfig>) -> Result<BulkStats, String> {
     if is_async {
         run_async(stream, storage, pat, cap, filter)
@@ -346,7 +456,7 @@ pub fn verbose_message(seed: usize, storage: bool, out: &mut Vec<u8>) {
 
 /// the C07 / C08 / C09 bulk families; `prefix` is "c07", "c08" or "c09"
 pub fn run_bulk_families(ctx: &Ctx, prefix: &str, is_async: bool) {
-    run_bulk_selected(ctx, prefix, is_async, &["len_sweep", "long_streams", "default_capacity", "disturbed", "small_capacity", "hostile_filtered"])
+    run_bulk_selected(ctx, prefix, is_async, &["len_sweep", "long_streams", "default_capacity", "disturbed", "small_capacity", "hostile_filtered", "counters", "storage_damage", "huge"])
 }
 
 pub fn run_bulk_selected(ctx: &Ctx, prefix: &str, is_async: bool, which: &[&str]) {
@@ -540,6 +650,112 @@ pub fn run_bulk_selected(ctx: &Ctx, prefix: &str, is_async: bool, which: &[&str]
                 Err(why) => viol(loc, &key_of(&why), format!("good message, then HTYP {:#04x} LEN {} + {} bytes{}; {}; filter: {}", htyp, len, follow, if storage { ", storage headers" } else { "" }, pat.describe(is_async), f.0), why),
             }
         }).trace(100_000));
+    }
+    // (7) message counters of one sender counting through 255 -> 0 (per-sender bookkeeping)
+    if which.contains(&"counters") {
+        let sp = Space::new(&[2, 3, 4]);
+        let s2 = sp.clone();
+        ctx.run_family(Family::new(format!("{}.bulk.counters", prefix), sp.size(), "700 consecutive log messages of one sender (same ECU id, session id, application and context id) whose message counter runs 0,1,..,255,0,.. / 250..255,0.. with a second sender interleaved / every counter value followed by itself, x storage mode x 4 schedules".to_string(), move |i, loc| {
+            let c = s2.coords(i);
+            let storage = c[0] == 1;
+            let pats = [Pattern { chunk: 0, disturb_every: 0 }, Pattern { chunk: 17, disturb_every: 0 }, Pattern { chunk: 1, disturb_every: 1 }, Pattern { chunk: 4096, disturb_every: 2 }];
+            let mut s = vec![];
+            for k in 0..700usize {
+                let (counter, sender) = match c[1] {
+                    0 => (k as u8, 0usize),
+                    1 => ((250 + k / 2) as u8, k % 2),
+                    _ => ((k / 2) as u8, 0),
+                };
+                if storage {
+                    s.extend_from_slice(STORAGE_HDR);
+                }
+                // HTYP 0x3D: UEH | WEID | WSID | WTMS, version 1
+                s.extend_from_slice(&[0x3D, counter, 0x00, 0x22, b'E', b'C', b'U', b'1' + sender as u8, 0, 0, 0, 7 + sender as u8, 0, 0, (k >> 8) as u8, k as u8]);
+                s.extend_from_slice(&[0x41, 0x01, b'A', b'P', b'P', 0, b'C', b'T', b'X', 0]);
+                s.extend_from_slice(&[0x43, 0x00, 0x00, 0x00, k as u8, 2, 3, 4]);
+            }
+            let s = Arc::new(s);
+            loc.evals += 1;
+            loc.traces += 1;
+            loc.state(i, true);
+            match run_reader(is_async, &s, storage, pats[c[2]], Cap::Minimal, None) {
+                Ok(st) => {
+                    loc.transitions += st.deliveries + st.disturbances;
+                    loc.outcome_n("messages delivered", st.messages);
+                }
+                Err(why) => viol(loc, &key_of(&why), format!("700 messages of one sender, counter shape {}{}; {}", c[1], if storage { ", storage headers" } else { "" }, pats[c[2]].describe(is_async)), why),
+            }
+        }).chunk(1).trace(24));
+    }
+    // (8) storage mode with a damaged storage-header magic: the piece is still cut at 16 + LEN and
+    // parsed as a slice (which resynchronises inside the piece)
+    if which.contains(&"storage_damage") {
+        let sp = Space::new(&[5, 6, 3, 2]);
+        let s2 = sp.clone();
+        ctx.run_family(Family::new(format!("{}.bulk.storage_damage", prefix), sp.size(), "storage mode: a good record, a record whose storage-header magic has byte j damaged (j in 0..4, or none) and whose declared length covers 0 / 1 / 2 following complete records exactly, or cuts the first one after its storage header / in its payload, or ends inside its pattern, then good records x 3 damage values x 2 schedules".to_string(), move |i, loc| {
+            let c = s2.coords(i);
+            let mut rec = vec![];
+            verbose_message(3, true, &mut rec);
+            let rl = rec.len();
+            let cover = [0usize, rl, 2 * rl, 20, rl - 5, 2][c[1]];
+            let mut s = vec![];
+            verbose_message(1, true, &mut s);
+            let mut hdr = STORAGE_HDR.to_vec();
+            if c[0] < 4 {
+                hdr[c[0]] = [0x00, 0x58, 0xFF][c[2]];
+            }
+            s.extend_from_slice(&hdr);
+            let len = 4 + 4 + cover;
+            s.extend_from_slice(&[0x20, 9, (len >> 8) as u8, len as u8, 1, 2, 3, 4]);
+            for k in 0..4 {
+                verbose_message(10 + k, true, &mut s);
+            }
+            let s = Arc::new(s);
+            let pat = if c[3] == 0 { Pattern { chunk: 0, disturb_every: 0 } } else { Pattern { chunk: 5, disturb_every: 3 } };
+            loc.evals += 1;
+            loc.traces += 1;
+            loc.state(i, true);
+            match run_reader(is_async, &s, true, pat, Cap::Minimal, None) {
+                Ok(st) => {
+                    loc.transitions += st.deliveries + st.disturbances;
+                    loc.outcome_n("results as the slice parser gives them", st.messages + st.piece_errors);
+                }
+                Err(why) => viol(loc, &key_of(&why), format!("storage mode, magic byte {} damaged to {:#04x}, declared length covering {} bytes of the following records; {}", c[0], if c[0] < 4 { hdr[c[0]] } else { 0 }, cover, pat.describe(is_async)), why),
+            }
+        }));
+    }
+    // (9) a huge virtual stream through ONE reader instance (offsets and counters beyond 2^32)
+    if which.contains(&"huge") {
+        let sizes: Vec<u64> = match tier {
+            Tier::Quick => vec![80 << 20],
+            Tier::Thorough => vec![(4u64 << 30) + (3 << 20)],
+        };
+        let sp = Space::new(&[sizes.len(), 2, 2]);
+        let s2 = sp.clone();
+        let sizes = &sizes;
+        ctx.run_family(Family::new(format!("{}.bulk.huge", prefix), sp.size(), format!("ONE reader instance fed a virtual stream of {:?} bytes (a base of 65535-byte, 4104-byte and 33-byte messages repeated): every result is the message at that position, then end of stream; x storage mode x 2 schedules", sizes), move |i, loc| {
+            let c = s2.coords(i);
+            let storage = c[1] == 1;
+            let mut base = vec![];
+            for k in 0..6usize {
+                message_of_len(65_535, k, storage, &mut base);
+                verbose_message(k, storage, &mut base);
+                message_of_len(4104, k + 9, storage, &mut base);
+            }
+            let repeat = sizes[c[0]] / base.len() as u64 + 1;
+            let base = Arc::new(base);
+            let pat = if c[2] == 0 { Pattern { chunk: 0, disturb_every: 0 } } else { Pattern { chunk: 1_000_003, disturb_every: 5 } };
+            loc.evals += 1;
+            loc.traces += 1;
+            loc.state(i, true);
+            match run_huge(is_async, &base, repeat, storage, pat, Cap::Default) {
+                Ok(st) => {
+                    loc.transitions += st.deliveries + st.disturbances;
+                    loc.outcome_n("messages delivered", st.messages);
+                }
+                Err(why) => viol(loc, &key_of(&why), format!("virtual stream of {} x {} bytes{}; {}", repeat, base.len(), if storage { ", storage headers" } else { "" }, pat.describe(is_async)), why),
+            }
+        }).chunk(1).trace(0));
     }
     // (5) readers built with small capacities (every message still fits message_max_len)
     if which.contains(&"small_capacity") {
